@@ -61,7 +61,18 @@ pub fn pt_from<G: GroupEncoding>(b: &[u8]) -> Option<G> {
     G::from_bytes(&repr).into()
 }
 
+/// honest secret key built from the field element itself (model construction must not depend on the byte import,
+/// which is a subject of several properties)
 pub fn sk_from_be<C: Suite>(b: &[u8; 32]) -> Option<SecretKey<C>> {
+    let s = sc_from_be::<C>(b);
+    if bool::from(s.is_zero()) {
+        None
+    } else {
+        Some(SecretKey(s))
+    }
+}
+/// the library's own big endian import
+pub fn sk_import_be<C: Suite>(b: &[u8; 32]) -> Option<SecretKey<C>> {
     SecretKey::<C>::from_be_bytes(b).into()
 }
 
